@@ -94,3 +94,67 @@ def run_child(fn, a=(), kw=None, timeout=20.0, method="fork"):
     if status == "died":
         payload = p.exitcode
     return status, payload, el
+
+
+def fork_child(fn, a=(), kw=None, timeout=20.0):
+    """Like run_child but with a bare os.fork (usable from pool workers, which
+    are daemonic and may not start multiprocessing children).  Returns
+    (status, payload, elapsed): status in ok / exc / timeout / died."""
+    import pickle
+    import select
+
+    kw = kw or {}
+    r, w = os.pipe()
+    t0 = time.time()
+    pid = os.fork()
+    if pid == 0:
+        code = 0
+        try:
+            os.close(r)
+            try:
+                msg = ("ok", fn(*a, **kw))
+            except BaseException as e:
+                msg = ("exc", f"{type(e).__name__}: {e}\n"
+                              f"{traceback.format_exc()}")
+            data = pickle.dumps(msg)
+            with os.fdopen(w, "wb") as f:
+                f.write(data)
+        except BaseException:
+            code = 3
+        finally:
+            os._exit(code)
+    os.close(w)
+    chunks = []
+    status, payload = "died", None
+    deadline = t0 + timeout
+    try:
+        while True:
+            left = deadline - time.time()
+            if left <= 0:
+                status = "timeout"
+                break
+            rl, _, _ = select.select([r], [], [], min(left, 1.0))
+            if rl:
+                b = os.read(r, 1 << 16)
+                if not b:
+                    break
+                chunks.append(b)
+        if status != "timeout" and chunks:
+            try:
+                status, payload = pickle.loads(b"".join(chunks))
+            except Exception:
+                status = "died"
+    finally:
+        os.close(r)
+        if status == "timeout":
+            try:
+                os.kill(pid, signal.SIGKILL)
+            except ProcessLookupError:
+                pass
+        try:
+            _, st = os.waitpid(pid, 0)
+            if status == "died":
+                payload = st
+        except ChildProcessError:
+            pass
+    return status, payload, time.time() - t0
